@@ -13,9 +13,9 @@ tie     : correspondence, five streams of harness/c10.cpp against `drv_c10`:
 oracle  : independent of Lean, `number_property` re-checks the property's own sentence on every `fmt` line with
           exact rational arithmetic (length < 28, alphabet, |reread - x| <= half unit of last digit + ulp, exactness
           when 17 significant digits fit); an `ERR` in wkt-rt is GEOS refusing its own output = a failing input."""
-import os, json, re
+import os, json, re, sys
 from fractions import Fraction
-import struct
+sys.path.insert(0, os.path.join(os.path.dirname(os.path.dirname(os.path.abspath(__file__))), "lib"))
 import verif
 from verif import log
 
@@ -83,6 +83,8 @@ def number_property(case, expect):
         if absu > 0x7ff0000000000000:
             return None if (r & 0x7fffffffffffffff) > 0x7ff0000000000000 else "NaN written as %r re-read as %016x" % (s2, r)
         return None if r == u else "infinity written as %r re-read as %016x" % (s2, r)
+    if r == u:
+        return None                       # exact round trip: every numeric clause holds
     back = bits_to_fraction(r)
     m = _NUM_RE.match(s2)
     if not m:
@@ -94,7 +96,8 @@ def number_property(case, expect):
         if abs(text - abs(x)) <= unit / 2 and text >= MAXFIN_PLUS_HALF:
             return "rounded-past-DBL_MAX: finite %016x is written as %r (correctly rounded to the requested digits) which exceeds the largest double and re-reads as infinity" % (u, s2)
         return "finite %016x written as %r re-read as non-finite %016x" % (u, s2, r)
-    if abs(back - x) > unit / 2 + ulp_of(u):
+    # |reread - s| <= ulp(reread)/2, |s - shortest| <= unit/2, |shortest - x| <= ulp(x)/2
+    if abs(back - x) > unit / 2 + max(ulp_of(u), ulp_of(r)):
         return "re-read value of %r differs from the input by more than half a unit of the last digit + 1 ulp" % s2
     # exactness when the requested precision leaves room for 17 significant digits
     if absu != 0:
@@ -119,6 +122,18 @@ def number_property(case, expect):
         if back != 0:
             return "zero written as %r re-read as %016x" % (s2, r)
     return None
+
+
+def _oracle_file(base):
+    """run `number_property` over one shard; returns (lines, [(case, expect, why)] (at most 20))"""
+    n, fails = 0, []
+    with open(base + ".cases") as fc, open(base + ".expect") as fe:
+        for case, exp in zip(fc, fe):
+            n += 1
+            why = number_property(case.strip(), exp.strip())
+            if why and len(fails) < 20:
+                fails.append((case.strip(), exp.strip(), why))
+    return n, fails
 
 
 # ------------------------------------------------------------------ gtree helpers (for shrinking)
@@ -233,14 +248,16 @@ def run(ctx):
                       {"kind": "tie-broken", "correspondence": "harness/c10.cpp", "log": out[-3000:]}, nofail=True)
         return
     quick = ctx.tier == "quick"
-    sizes = {"fmt": 100000 if quick else 1500000, "wkt-write": 6000 if quick else 120000,
+    sizes = {"fmt": 70000 if quick else 1500000, "wkt-write": 6000 if quick else 120000,
              "wkt-read": 4000 if quick else 60000, "wkt-rt": 6000 if quick else 120000,
              "geojson": 4000 if quick else 80000}
     shards = min(verif.NPROC, 12)
     corr = {}
     found_input = False
     broken = []
+    import time as _t
     for stream in ("fmt", "wkt-write", "wkt-read", "wkt-rt", "geojson"):
+        log("stream", stream, "t=%.1f" % (_t.time() - ctx.t0))
         r = verif.run_stream(exe, stream, ctx.seed, sizes[stream], ctx.work, shards=shards, driver_exe=DRV)
         ndis = len(r["disagreements"]) + r.get("more_disagreements", 0)
         corr[stream] = {"cases": r["cases"], "disagreements": ndis, "distribution": r["stats"]}
@@ -255,24 +272,29 @@ def run(ctx):
             bad = 0
             nchecked = 0
             sigs_seen = []
-            for k in range(shards):
-                base = os.path.join(ctx.work, "%s.%d" % (stream, k))
-                with open(base + ".cases") as fc, open(base + ".expect") as fe:
-                    for case, exp in zip(fc, fe):
-                        nchecked += 1
-                        why = number_property(case.strip(), exp.strip())
-                        if why:
-                            bad += 1
-                            found_input = True
-                            b, p, t = case.split()
-                            cls = why.split(":")[0] if why.startswith("rounded-past-DBL_MAX") else re.sub(r"'[^']*'|[0-9a-f]{16}|\d+", "#", why)[:80]
-                            sig = {"stream": "fmt", "class": cls}
-                            if sig in sigs_seen:
-                                continue
-                            sigs_seen.append(sig)
-                            ctx.violation("number formatting violates the property: %s (bits %s precision %s trim %s -> %s)" % (why, b, p, t, exp.strip()),
-                                          {"kind": "failing-input", "stream": "fmt", "case": case.strip(), "impl": exp.strip(), "why": why,
-                                           "replay_cmd": "%s replay fmt <file with case line>" % exe, "signature": sig}, signature=sig)
+            import subprocess, sys
+            bases = [os.path.join(ctx.work, "%s.%d" % (stream, k)) for k in range(shards)]
+            procs = [subprocess.Popen([sys.executable, os.path.abspath(__file__), "--oracle", b], stdout=subprocess.PIPE) for b in bases]
+            results = []
+            for pr in procs:
+                out_, _ = pr.communicate()
+                if pr.returncode != 0:
+                    raise RuntimeError("fmt property oracle subprocess failed")
+                results.append(json.loads(out_.decode()))
+            for n_, fails in results:
+                nchecked += n_
+                for case, exp, why in fails:
+                    bad += 1
+                    found_input = True
+                    b, p, t = case.split()
+                    cls = why.split(":")[0] if why.startswith("rounded-past-DBL_MAX") else re.sub(r"'[^']*'|[0-9a-f]{16}|\d+", "#", why)[:80]
+                    sig = {"stream": "fmt", "class": cls}
+                    if sig in sigs_seen:
+                        continue
+                    sigs_seen.append(sig)
+                    ctx.violation("number formatting violates the property: %s (bits %s precision %s trim %s -> %s)" % (why, b, p, t, exp),
+                                  {"kind": "failing-input", "stream": "fmt", "case": case, "impl": exp, "why": why,
+                                   "replay_cmd": "%s replay fmt <file with case line>" % exe, "signature": sig}, signature=sig)
             corr[stream]["property_oracle_lines"] = nchecked
             corr[stream]["property_oracle_failures"] = bad
         if stream == "wkt-rt":
@@ -367,6 +389,7 @@ def run(ctx):
                                    "replay_cmd": "%s replay geojson <file with case line>" % exe, "signature": sig}, signature=sig)
                 else:
                     broken.append((stream, case, exp, got))
+    log("streams done t=%.1f" % (_t.time() - ctx.t0))
     ctx.cov["support_correspondence"] = corr
     for stream, case, exp, got in broken:
         ctx.violation("correspondence stream %s no longer agrees with the model (the property's own conditions were re-checked on the implementation's output for this and all other generated cases and hold): case %s impl %s model %s"
@@ -408,3 +431,9 @@ def replay(ctx, path):
         print("VIOLATION property=C10 replay=%s" % path)
         return 1
     return 0
+
+
+if __name__ == "__main__":
+    if len(sys.argv) == 3 and sys.argv[1] == "--oracle":
+        n, fails = _oracle_file(sys.argv[2])
+        print(json.dumps([n, fails]))
